@@ -481,7 +481,7 @@ GenOp(e) ==     \* e: a script element
               [] e.kind = "die" -> Settle(WorkerDie(T0, e.w))
               [] e.kind = "start" -> Settle(HubStartWorker(T0, e.w))
   IN /\ Set(T1)
-     /\ hist' = Append(hist, [op |-> e, verdict |-> LastVerdict(T0, T1, e), obs |-> Observation(T1)])
+     /\ hist' = Append(hist, [op |-> e, verdict |-> LastVerdict(T0, T1, e), obs |-> Observation(T1), pre |-> CoreOf(T0)])
 
 GenNext ==
   /\ Quiescent(S) /\ Settled(S)
@@ -491,8 +491,10 @@ GenNext ==
         /\ \/ \E w \in RealWorkers : WorkerDieEn(S, w) /\ GenOp([kind |-> "die", w |-> w])
            \/ \E w \in Workers : HubStartWorkerEn(S, w) /\ GenOp([kind |-> "start", w |-> w])
 GenSpec == Init /\ [][GenNext]_vars
-\* one TLC state per (quiescent state, last script element)
-GenView == <<MCView, IF hist = <<>> THEN <<>> ELSE hist[Len(hist)].op>>
+\* one TLC state per transition (quiescent state, script element, resulting state): the script printed for it ends
+\* with that very transition, whatever other paths lead to the same resulting state
+GenView == <<MCView, IF hist = <<>> THEN <<>> ELSE <<hist[Len(hist)].op, hist[Len(hist)].pre>> >>
 
-EmitState == (Emit /\ hist # <<>>) => PrintT(<<"REPLAY", ToJson([script |-> hist])>>)
+EmitState == (Emit /\ hist # <<>>) =>
+  PrintT(<<"REPLAY", ToJson([script |-> [i \in 1..Len(hist) |-> [op |-> hist[i].op, verdict |-> hist[i].verdict, obs |-> hist[i].obs]]])>>)
 =============================================================================
